@@ -886,6 +886,161 @@ fn explore(ctx: &Ctx, env: &Env, ops: &[Op], quiet: bool, depth: usize, dedup: b
 // payload spaces: one image, fixed mini-history
 // --------------------------------------------------------------------------------------------
 
+/// A sink that takes at most `limit` bytes per `write` call.
+struct ShortWriter {
+    limit: usize,
+    data: Vec<u8>,
+}
+
+impl std::io::Write for ShortWriter {
+    fn write(&mut self, buf: &[u8]) -> std::io::Result<usize> {
+        let n = buf.len().min(self.limit);
+        self.data.extend_from_slice(&buf[..n]);
+        Ok(n)
+    }
+    fn flush(&mut self) -> std::io::Result<()> {
+        Ok(())
+    }
+}
+
+/// draw / draw again / erase on a fresh handler into a `Vec` and into sinks that accept 1 and 7 bytes per call:
+/// the bytes delivered must be the same
+fn sink_check(image: &Image) -> Option<Finding> {
+    let run = |limit: usize| -> Result<Vec<u8>, String> {
+        let mut h = KittyImageHandler::new();
+        let mut sink = ShortWriter { limit, data: vec![] };
+        let pos = Position::new(1, 2);
+        h.draw(&mut sink, image, pos).map_err(|e| format!("draw: {e:?}"))?;
+        h.draw(&mut sink, image, Position::new(0, 1)).map_err(|e| format!("second draw: {e:?}"))?;
+        h.erase(&mut sink, image, Some(pos)).map_err(|e| format!("erase: {e:?}"))?;
+        h.erase(&mut sink, image, None).map_err(|e| format!("erase all: {e:?}"))?;
+        Ok(sink.data)
+    };
+    let whole = match catch(|| run(usize::MAX)) {
+        Ok(Ok(b)) => b,
+        _ => return None, // judged by the history spaces
+    };
+    for limit in [1usize, 7] {
+        match catch(|| run(limit)) {
+            Err(p) => return Some(Finding { key: format!("sink:{}", p.key()), what: format!("writing to a sink that accepts {limit} byte(s) per call panicked: {}", p.message) }),
+            Ok(Err(e)) => return Some(Finding { key: "sink:error".into(), what: format!("writing to a sink that accepts {limit} byte(s) per call failed: {e}") }),
+            Ok(Ok(b)) => {
+                if b != whole {
+                    return Some(Finding {
+                        key: "sink:output-depends-on-sink".into(),
+                        what: format!("a sink that accepts {limit} byte(s) per write call received {} bytes, a Vec {} bytes (draw, draw, erase, erase all)", b.len(), whole.len()),
+                    });
+                }
+            }
+        }
+    }
+    None
+}
+
+/// A sink for very large outputs: keeps the control part of every graphics command (`ESC _ G <control> ;`) and
+/// counts the payload bytes instead of storing them.
+#[derive(Default)]
+struct ControlSink {
+    /// 0 text, 1 after ESC, 2 after ESC _, 3 inside control data, 4 inside payload, 5 payload after ESC
+    state: u8,
+    cur: Vec<u8>,
+    controls: Vec<String>,
+    payload_bytes: u64,
+}
+
+impl std::io::Write for ControlSink {
+    fn write(&mut self, buf: &[u8]) -> std::io::Result<usize> {
+        for &b in buf {
+            self.state = match (self.state, b) {
+                (0, 0x1b) => 1,
+                (0, _) => 0,
+                (1, b'_') => 2,
+                (1, _) => 0,
+                (2, b'G') => {
+                    self.cur.clear();
+                    3
+                }
+                (2, _) => 0,
+                (3, b';') => {
+                    self.controls.push(String::from_utf8_lossy(&self.cur).into_owned());
+                    4
+                }
+                (3, 0x1b) => {
+                    self.controls.push(String::from_utf8_lossy(&self.cur).into_owned());
+                    5
+                }
+                (3, c) => {
+                    self.cur.push(c);
+                    3
+                }
+                (4, 0x1b) => 5,
+                (4, _) => {
+                    self.payload_bytes += 1;
+                    4
+                }
+                (5, _) => 0,
+                _ => 0,
+            };
+        }
+        Ok(buf.len())
+    }
+    fn flush(&mut self) -> std::io::Result<()> {
+        Ok(())
+    }
+}
+
+/// Volume: `count` distinct opaque images of `side` x `side` pixels are drawn on one handler, then all of them
+/// once more at another cell. The second round must not transmit anything ("at most once per handler"),
+/// however much pixel data has gone through the handler in between.
+fn volume_check(count: usize, side: usize) -> (u64, Vec<Finding>) {
+    let mut findings = vec![];
+    let make = |k: usize| -> Image {
+        let surf = SurfaceOwned::new_with(Size::new(side, side), |p| RGBA::new((p.row % 251) as u8, (p.col % 241) as u8, k as u8, 255));
+        Image::from(surf)
+    };
+    let images: Vec<Image> = (0..count).map(make).collect();
+    let mut handler = KittyImageHandler::new();
+    let mut bytes = 0u64;
+    for round in 0..2 {
+        for (k, img) in images.iter().enumerate() {
+            let mut sink = ControlSink::default();
+            match catch(|| handler.draw(&mut sink, img, Position::new(round, k)).is_ok()) {
+                Err(p) => {
+                    findings.push(Finding { key: format!("volume:{}", p.key()), what: format!("drawing image #{k} ({side}x{side}) panicked: {}", p.message) });
+                    return (bytes, findings);
+                }
+                Ok(false) => {
+                    findings.push(Finding { key: "volume:draw-error".into(), what: format!("drawing image #{k} ({side}x{side}) returned an error") });
+                    return (bytes, findings);
+                }
+                Ok(true) => {}
+            }
+            bytes += sink.payload_bytes;
+            let transmits = sink.controls.iter().filter(|c| c.split(',').any(|kv| kv == "a=t" || kv == "a=T")).count();
+            let expected_payload = ((side * side * 4).div_ceil(3) * 4) as u64;
+            if round == 0 && (transmits == 0 || sink.payload_bytes != expected_payload) {
+                findings.push(Finding {
+                    key: "volume:first-draw-not-transmitted".into(),
+                    what: format!("first draw of image #{k} ({side}x{side}): {transmits} transmit command(s), {} payload bytes, expected {expected_payload}", sink.payload_bytes),
+                });
+                return (bytes, findings);
+            }
+            if round == 1 && (transmits != 0 || sink.payload_bytes != 0) {
+                findings.push(Finding {
+                    key: "volume:transmitted-twice".into(),
+                    what: format!(
+                        "image #{k} of {count} distinct {side}x{side} images was transmitted again ({} payload bytes) when drawn a second time on the same handler, after {} MiB of pixel data had gone through it",
+                        sink.payload_bytes,
+                        (count * side * side * 4) >> 20
+                    ),
+                });
+                return (bytes, findings);
+            }
+        }
+    }
+    (bytes, findings)
+}
+
 const MINI: [Op; 6] = [Op::Draw(0, 1), Op::Draw(0, 1), Op::Draw(0, 2), Op::EraseAt(0, 1), Op::Draw(0, 3), Op::EraseAll(0)];
 
 fn payload_case(h: usize, w: usize, px: Vec<[u8; 4]>) -> (Env, Vec<(usize, Finding)>, u64) {
@@ -903,6 +1058,9 @@ fn payload_case(h: usize, w: usize, px: Vec<[u8; 4]>) -> (Env, Vec<(usize, Findi
             }
         }
         sig = hash64(&(sig, world.last_sig));
+    }
+    if let Some(f) = sink_check(&env.imgs[0].image) {
+        out.push((MINI.len(), f));
     }
     (env, out, sig)
 }
@@ -1036,6 +1194,20 @@ pub fn run(ctx: &Ctx) -> Result<Report, String> {
             sig
         })
         .collect();
+    // ---- volume: one image above 128 MiB twice; (thorough) twelve 16 MiB images twice
+    let mut volume = vec![(1usize, 5800usize)];
+    if ctx.tier == Tier::Thorough {
+        volume.push((12, 2048));
+        volume.push((40, 1024));
+    }
+    let mut volume_report = vec![];
+    for (count, side) in volume {
+        let (bytes, findings) = volume_check(count, side);
+        for f in findings {
+            viol.add(f.key.clone(), f.what.clone(), json!({"sub": "volume", "count": count, "side": side}));
+        }
+        volume_report.push(json!({"images": count, "side": side, "payload_bytes_seen": bytes}));
+    }
     let extra_hist = (pixel_cases.len() + sizes.len()) as u64;
     let extra_ops = extra_hist * MINI.len() as u64;
 
@@ -1058,6 +1230,7 @@ pub fn run(ctx: &Ctx) -> Result<Report, String> {
         .set("single_pixel_distinct_outcomes", pixel_sigs.len())
         .set("size_lattice_images", sizes.len())
         .set("size_lattice_distinct_outcomes", size_sigs.len())
+        .set("volume_histories", volume_report)
         .set("mini_history_for_payload_spaces", "draw@(0,1), draw@(0,1), draw@(1,0), erase@(0,1), draw@(65535,65535), erase(None)")
         .set("suppress_restored_in_all_histories", !cnt.q_deviation.load(Ordering::Relaxed))
         .set("raw_violations", viol.raw_count());
@@ -1128,6 +1301,20 @@ pub fn replay(w: &Value) -> Result<(bool, String), String> {
                 let f: Vec<Finding> = world.apply(&env, op).into_iter().filter(|f| !f.key.contains("p0-unspecified")).collect();
                 bad |= !f.is_empty();
                 show(&world, &env, n, op, &f, &mut text);
+            }
+            if let Some(f) = sink_check(&env.imgs[0].image) {
+                bad = true;
+                text.push_str(&format!("  VIOLATION [{}]: {}\n", f.key, f.what));
+            }
+        }
+        "volume" => {
+            let count = w["count"].as_u64().ok_or("count")? as usize;
+            let side = w["side"].as_u64().ok_or("side")? as usize;
+            let (bytes, findings) = volume_check(count, side);
+            text.push_str(&format!("{count} distinct {side}x{side} images drawn twice on one handler; {bytes} payload bytes seen\n"));
+            for f in findings {
+                bad = true;
+                text.push_str(&format!("  VIOLATION [{}]: {}\n", f.key, f.what));
             }
         }
         o => return Err(format!("unknown sub-space {o}")),
